@@ -141,6 +141,7 @@ def run_C15(ctx, R):
     _scoped(ctx, R, out.out7, C15_ENTRIES, 2)
     _scoped(ctx, R, utilsx.tab18, C15_ENTRIES, 1)
     _scoped(ctx, R, bnd3.bnd3_pointer, C15_ENTRIES, 30)
+    _scoped(ctx, R, utilsx.esc1, C15_ENTRIES, 1)
 
 
 def run_C16(ctx, R):
@@ -174,6 +175,7 @@ def run_C17(ctx, R):
     _per_config(ctx, R, _own_utils({'create_patches', 'compose_patch', 'cJSONUtils_GeneratePatches', 'cJSONUtils_GeneratePatchesCaseSensitive'}))
     _scoped(ctx, R, tab.tab20, C17_ENTRIES, 0)
     _scoped(ctx, R, out.out7, C17_ENTRIES, 3)
+    _scoped(ctx, R, utilsx.esc1, C17_ENTRIES, 1)
     _per_config(ctx, R, tab.tab9)
     _scoped(ctx, R, out.out5, C17_ENTRIES, 3)
     _scoped(ctx, R, lst.lst1, C17_ENTRIES, 1)
@@ -374,7 +376,7 @@ def run_C03(ctx, R):
     _per_config(ctx, R, _only_functions(_own_cjson, PARSE_FNS, 'OWN2', 8))
     _per_config(ctx, R, parse.tab5a)
     _per_config(ctx, R, _only_functions(parse.tab17, PARSE_FNS, 'TAB17', 10))
-    _per_config(ctx, R, _only_functions(tab.tab8, PARSE_FNS, 'TAB8', 6))
+    _per_config(ctx, R, _only_functions(tab.tab8, PARSE_FNS, 'TAB8', 2))
     _per_config(ctx, R, parse.tab4)
     _per_config(ctx, R, parse.c03_structure)
     _per_config(ctx, R, parse.tab21)
@@ -647,7 +649,9 @@ PROPERTIES = {
         'explanation':
             "Structural necessary conditions of RFC 6901 resolution and of pointer construction, on every function "
             "reachable from the pointer entry points. TAB8: every two-sided range test with literal bounds bounds one and "
-            "the same element (the array-index digit loop). TAB9: the four escape routines (encoder, encoded-length, "
+            "the same element (the array-index digit loop). ESC1: a member name (X->string) becomes part of a pointer only as an "
+            "argument of the encoder, never as something sprintf(%s)/strcat/strcpy/memcpy copy verbatim, neither directly nor "
+            "through a helper parameter that is. TAB9: the four escape routines (encoder, encoded-length, "
             "in-place decoder, comparing tokeniser) are followed path by path with the set of values the bytes under "
             "their cursors can have; for every byte value 1..255 what each writes, counts, consumes and accepts must agree "
             "with the others and with RFC 6901 (~0<->~, ~1<->/, everything else verbatim, no other ~x). TAB11: the case_sensitive flag is passed unchanged to every callee that "
@@ -682,7 +686,8 @@ PROPERTIES = {
         'explanation':
             "Path construction and input preservation clauses of patch generation. OUT7: each path buffer (compose_patch, "
             "create_patches array and object arms) is sized for what is written, with the encoded length taken of the "
-            "same key that is encoded and the key appended exactly where the text so far ends. TAB9/OUT5: escape tables "
+            "same key that is encoded and the key appended exactly where the text so far ends. ESC1: member names reach pointer "
+            "text only through the encoder (not as a %s argument or a verbatim-copied helper parameter). TAB9/OUT5: escape tables "
             "and gap-free encoding. LST1+LST5: sort_object (run on both inputs) restores the tail link and sort_list "
             "stores only next/prev and calls only itself and the comparator, so inputs are merely re-linked. TAB11: "
             "the flag reaches sort and compare. INP: create_patches stores through nothing derived from its two inputs and hands "
